@@ -9,6 +9,7 @@ import ast
 from ..src import walk, calls, call_name, last_attr, dotted, norm, loc, const, AnchorError, ExtractError, parent, unparse
 from ..cfg import CFG
 from ..effects import Universe, writes
+from ..peval import Evaluator, Obj, Unknown, Raised
 
 CORE = "wntr/sim/core.py"
 HYD = "wntr/sim/hydraulics.py"
@@ -22,16 +23,23 @@ EXPLANATION = (
     "Static state inventory of the restart path: (R-C10-1) the loop-carried attributes of WNTRSimulator -- self.X assigned inside run_sim's "
     "while loop or in a method called from it -- are enumerated; for each, the definition that reaches the loop when run_sim is entered on a "
     "continued run (sim_time != 0) must read the model (self._wn): an assignment of a constant / empty container in __init__ or in the "
-    "prologue, not overridden by a model-derived one, loses state on restart; loop-carried locals of run_sim are classified the same way; "
+    "prologue, not overridden by a model-derived one, loses state on restart (reaching definitions with the first-step guards -- if statement, "
+    "conditional expression, any spelling, any flag name -- partially evaluated for a continued run); loop-carried locals of run_sim must be derived "
+    "from the model (followed through temporaries), hold their initial constant at every time advance, or be re-assigned before use; "
     "(R-C10-2) every run-time field the loop writes on the model lives in a class without __slots__/__getstate__/__reduce__, "
     "ValueCondition.__getnewargs__ agrees with __new__, and the prologue overwrites model-side run-time state only under the first_step guard; "
-    "(R-C10-3) first_step is `sim_time == 0`, the loop leaves only after sim_time was advanced past the duration, and the advance returns to "
-    "the hydraulic grid, so a continued run starts at the next grid time. Decides this inventory, not numerical equality of the results.")
+    "(R-C10-3) the first-step flag is true exactly when `sim_time == 0`, the loop leaves only after sim_time was advanced past the duration, and "
+    "the advance returns to the hydraulic grid, so a continued run starts at the next grid time -- decided by evaluating the defining slice of the "
+    "flag / the clock arithmetic of one iteration / the exit conditions on a finite set of clocks, timesteps and durations, not by matching text. "
+    "Decides this inventory, not numerical equality of the results.")
 RULE_TEXT = ("one instance = one loop-carried simulator attribute / local, one model class carrying run-time state, one prologue store, "
              "one exit path; distinct = distinct constructs")
 ASSUMPTIONS = [
     "state kept outside WNTRSimulator attributes, run_sim locals and model attributes (e.g. module globals) does not exist in wntr/sim/core.py (module-level assignments are inventoried)",
     "an assignment 'reads the model' if its right-hand side, or the prologue callee it sits in, mentions self._wn / wn; that the derivation is the right one is not decided",
+    "R-C10-3 evaluates the clock arithmetic written in run_sim itself (assignments, with their if-structure); clock changes made inside callees of the loop "
+    "(_compute_next_timestep_and_run_presolve_controls_and_rules backtracking to a control time) happen before the advance and are not part of it",
+    "the flag, clock and exit semantics are checked on finitely many probe values (clocks 0, 0.0, 1, 3600, -1, 86400; whole and partial steps; durations on and off the grid)",
 ]
 
 INVARIANT = {
@@ -120,19 +128,231 @@ def is_constant_value(v):
     return False
 
 
-def guard_of(stmt, root):
-    """'first' / 'notfirst' / None: nearest enclosing `if first_step` polarity."""
-    q = stmt
-    while q is not None and q is not root:
-        p = parent(q)
-        if isinstance(p, ast.If):
-            t = unparse(p.test)
-            if t in ("first_step", "first_step is True", "first_step == True"):
-                return "first" if q in p.body else "notfirst"
-            if t in ("not first_step", "first_step is False"):
-                return "notfirst" if q in p.body else "first"
-        q = p
-    return None
+# ------------------------------------------------------------------ a small concrete machine for the time/flag arithmetic of run_sim
+# The facts R-C10-3 / the first-step guards decide are facts about VALUES (is the flag true exactly when sim_time == 0? where does
+# the advance put sim_time?  when does the loop stop?), so they are decided by evaluating the relevant slice of the source on a finite set of
+# model states with sa/peval.py -- not by matching the text of today's statements.
+FREE_PROBES = (None, 0, -1, 3600)
+
+
+def _machine(sim_time, duration=36000, hyd=3600, free=None, env=None):
+    """evaluator over an abstract simulator: self._wn.sim_time, self._wn.options.time.duration/hydraulic_timestep, self._hydraulic_timestep are
+    concrete; any other attribute of self / self._wn is a FREE input (value from `free`, default None) and its read is recorded."""
+    reads = []
+    tm = Obj("wn.options.time", {"duration": duration, "hydraulic_timestep": hyd})
+    wn = Obj("wn", {"sim_time": sim_time, "options": Obj("wn.options", {"time": tm})})
+    me = Obj("self", {"_wn": wn, "_hydraulic_timestep": hyd})
+
+    def attr_hook(base, attr):
+        if isinstance(base, Obj) and base.name in ("wn", "self") and attr not in base.attrs:
+            key = base.name + "." + attr
+            if key not in reads:
+                reads.append(key)
+            return (free or {}).get(key)
+        return NotImplemented
+
+    def call_hook(name, node, ev):
+        if name == "bool" and len(node.args) == 1 and not node.keywords:
+            return bool(ev.truth(ev.ev(node.args[0])))
+        return NotImplemented
+    e = {"self": me}
+    e.update(env or {})
+    return Evaluator(env=e, call=call_hook, attr=attr_hook), wn, reads
+
+
+def _flat_targets(s):
+    tg = s.targets if isinstance(s, ast.Assign) else [s.target]
+    out = []
+    for t in tg:
+        out += list(t.elts) if isinstance(t, (ast.Tuple, ast.List)) else [t]
+    return out
+
+
+def _read_texts(node):
+    """names and dotted attribute chains (with all their prefixes) read in an expression."""
+    out = set()
+    for x in ast.walk(node):
+        if isinstance(x, ast.Name):
+            out.add(x.id)
+        elif isinstance(x, ast.Attribute):
+            d = dotted(x)
+            if d:
+                out.add(d)
+    return out
+
+
+def backward_slice(stmts, wanted):
+    """the assignments (with their enclosing if-structure) of a statement list on which the values named in `wanted` (local names / dotted
+    attribute paths) depend -> (sliced statements, names wanted before the list).  Calls made for their effect are not followed (new private
+    helpers are inlined by the normaliser before we get here); loops that assign a wanted name are outside the fragment."""
+    wanted = set(wanted)
+    out = []
+    for s in reversed(stmts):
+        if isinstance(s, (ast.Assign, ast.AugAssign, ast.AnnAssign)):
+            if isinstance(s, ast.AnnAssign) and s.value is None:
+                continue
+            tt = [dotted(t) or unparse(t) for t in _flat_targets(s)]
+            if any(t in wanted for t in tt):
+                out.append(s)
+                if isinstance(s, ast.Assign) and len(tt) == 1 and isinstance(s.targets[0], ast.Name):
+                    wanted.discard(tt[0])            # a plain assignment of a local kills the earlier definitions
+                wanted |= _read_texts(s.value)
+                if isinstance(s, ast.AugAssign):
+                    wanted |= _read_texts(s.target)
+        elif isinstance(s, ast.If):
+            b, wb = backward_slice(s.body, wanted)
+            o, wo = backward_slice(s.orelse, wanted)
+            if b or o:
+                n = ast.If(test=s.test, body=b or [ast.Pass()], orelse=o)
+                ast.copy_location(n, s)
+                out.append(n)
+                wanted = wanted | wb | wo | _read_texts(s.test)
+        elif isinstance(s, (ast.For, ast.While, ast.With, ast.Try)):
+            for x in walk(s):
+                if isinstance(x, (ast.Assign, ast.AugAssign, ast.AnnAssign)) and any((dotted(t) or unparse(t)) in wanted for t in _flat_targets(x)):
+                    raise ExtractError("line %s: %s is assigned inside a loop/with/try block (outside the evaluated fragment)" % (
+                        getattr(x, "lineno", "?"), [dotted(t) or unparse(t) for t in _flat_targets(x)]))
+    out.reverse()
+    return out, wanted
+
+
+def flag_rows(sl, flag, times=(0, 0.0, 1, 3600, 3600.0, -1, 86400)):
+    """truth of local `flag` after running the slice, for every probed sim_time and every value of the free inputs the slice reads
+    -> ([(sim_time, free assignment, truth)], free input names)."""
+    import itertools
+    free_names = []
+    while True:
+        rows, n0 = [], len(free_names)
+        for t in times:
+            for combo in itertools.product(FREE_PROBES, repeat=len(free_names)):
+                fr = dict(zip(free_names, combo))
+                ev, wn, reads = _machine(t, free=fr)
+                try:
+                    ev.run(sl)
+                except Raised:
+                    continue
+                for r in reads:
+                    if r not in free_names:
+                        free_names.append(r)
+                if flag not in ev.env:
+                    raise ExtractError("local %s has no value on some path of its defining slice (sim_time=%r)" % (flag, t))
+                rows.append((t, fr, bool(ev.truth(ev.env[flag]))))
+        if len(free_names) == n0:
+            return rows, free_names
+        if len(free_names) > 3:
+            raise ExtractError("the definition of %s reads more than 3 further inputs: %s" % (flag, free_names))
+
+
+class FirstStep(object):
+    """polarity of guards with respect to the one-shot first-step flag (whatever its name), decided by evaluation: a test is a 'first' guard if
+    it is true in the state (flag True, sim_time 0) and false in (flag False, sim_time > 0), reading nothing else."""
+
+    def __init__(self, flag):
+        self.flag = flag
+
+    def polarity(self, test):
+        vals = []
+        for fs, t in ((True, 0), (False, 3600), (False, 3600.0 * 7)):
+            ev, wn, reads = _machine(t, env={self.flag: fs})
+            try:
+                v = bool(ev.truth(ev.ev(test)))
+            except (Unknown, Raised, TypeError, ZeroDivisionError):
+                return 0
+            if reads:
+                return 0
+            vals.append(v)
+        return 1 if vals == [True, False, False] else -1 if vals == [False, True, True] else 0
+
+    def guard_of(self, stmt, root):
+        """'first' / 'notfirst' / None: polarity of the nearest enclosing guard equivalent to the flag or to its negation."""
+        q = stmt
+        while q is not None and q is not root:
+            p = parent(q)
+            if isinstance(p, ast.If) and (q in p.body or q in p.orelse):
+                pol = self.polarity(p.test)
+                if pol:
+                    return "first" if (q in p.body) == (pol == 1) else "notfirst"
+            elif isinstance(p, ast.IfExp) and (q is p.body or q is p.orelse):
+                pol = self.polarity(p.test)
+                if pol:
+                    return "first" if (q is p.body) == (pol == 1) else "notfirst"
+            q = p
+        return None
+
+    def continued_value(self, v):
+        """the sub-expression a conditional expression selects on a continued run."""
+        while isinstance(v, ast.IfExp):
+            pol = self.polarity(v.test)
+            if pol == 0:
+                break
+            v = v.orelse if pol == 1 else v.body
+        return v
+
+    def reaching(self, stmts, defs, where, call_defs):
+        """definitions of self.<attr> that reach the end of `stmts` on a continued run (first-step guards partially evaluated; a later
+        unconditional assignment kills the earlier ones; method calls add the assignments of their callees as may-definitions)."""
+        for s in stmts:
+            if isinstance(s, ast.If):
+                pol = self.polarity(s.test)
+                if pol == 1:
+                    self.reaching(s.orelse, defs, where, call_defs)
+                elif pol == -1:
+                    self.reaching(s.body, defs, where, call_defs)
+                else:
+                    d1 = {k: list(v) for k, v in defs.items()}
+                    d2 = {k: list(v) for k, v in defs.items()}
+                    self.reaching(s.body, d1, where, call_defs)
+                    self.reaching(s.orelse, d2, where, call_defs)
+                    _merge(defs, d1, d2)
+                continue
+            if isinstance(s, (ast.For, ast.While, ast.With, ast.Try)):
+                d1 = {k: list(v) for k, v in defs.items()}
+                inner = list(s.body) + list(getattr(s, "orelse", [])) + list(getattr(s, "finalbody", []))
+                for h in getattr(s, "handlers", []):
+                    inner += h.body
+                self.reaching(inner, d1, where, call_defs)
+                _merge(defs, {k: list(v) for k, v in defs.items()}, d1)
+                continue
+            if isinstance(s, (ast.FunctionDef, ast.ClassDef)):
+                continue
+            for m in self_method_calls(s):
+                for a, lst in call_defs(m).items():
+                    defs.setdefault(a, [])
+                    defs[a] = defs[a] + [d for d in lst if not any(d[1] is e[1] for e in defs[a])]
+            if isinstance(s, (ast.Assign, ast.AnnAssign)) and getattr(s, "value", None) is not None:
+                for e in _flat_targets(s):
+                    if isinstance(e, ast.Attribute) and isinstance(e.value, ast.Name) and e.value.id == "self":
+                        defs[e.attr] = [(where, s)]
+
+
+def _merge(defs, d1, d2):
+    for k in set(d1) | set(d2):
+        seen = []
+        for d in d1.get(k, []) + d2.get(k, []):
+            if not any(d[1] is e[1] for e in seen):
+                seen.append(d)
+        defs[k] = seen
+
+
+def find_flag(prologue, loop):
+    """the one-shot flag of the time loop, identified by its role: a local defined before the loop whose only assignments inside the loop
+    set it to False (true at most until the first accepted step)."""
+    pro_locals = set()
+    for n in walk(ast.Module(body=prologue, type_ignores=[])):
+        if isinstance(n, ast.Assign):
+            pro_locals |= {t.id for t in _flat_targets(n) if isinstance(t, ast.Name)}
+    inloop = {}
+    for n in walk(ast.Module(body=loop.body, type_ignores=[])):
+        if isinstance(n, (ast.Assign, ast.AugAssign, ast.AnnAssign)):
+            for t in _flat_targets(n):
+                if isinstance(t, ast.Name):
+                    inloop.setdefault(t.id, []).append(n)
+    cand = sorted(nm for nm, sts in inloop.items() if nm in pro_locals and all(isinstance(s, ast.Assign) and const(s.value, 0) is False for s in sts))
+    if len(cand) == 1:
+        return cand[0]
+    if "first_step" in pro_locals:
+        return "first_step"
+    raise ExtractError("run_sim: the one-shot first-step flag was not found (candidates: %s)" % cand)
 
 
 def run(repo, chk):
@@ -171,12 +391,33 @@ def run(repo, chk):
     for m in sorted(loop_methods):
         for a, sts in self_stores(meths[m]).items():
             carried.setdefault(a, []).extend([(m, s) for s in sts])
+    flag = find_flag(prologue, loop)
+    fsx = FirstStep(flag)
+    guard_of = fsx.guard_of
+    chk.extra["first_step_flag"] = flag
+    _cd_cache = {}
+
+    def call_defs(m):
+        """attribute -> [(method, assignment)] for every self.attr assignment in the closure of simulator method m."""
+        if m not in _cd_cache:
+            out = {}
+            for mm in sorted(closure(meths, [m])):
+                for a, sts in self_assigns(meths[mm]).items():
+                    out.setdefault(a, []).extend([(mm, s_) for s_ in sts])
+            _cd_cache[m] = out
+        return _cd_cache[m]
+    def local_from_model(nm):
+        """a prologue local is derived from the model if the statements its value depends on (followed through temporaries and guards) read it."""
+        try:
+            sl, _ = backward_slice(prologue, {nm})
+        except ExtractError:
+            sl = [n for n in walk(pro_mod) if isinstance(n, ast.Assign) and any(isinstance(t, ast.Name) and t.id == nm for t in _flat_targets(n))]
+        return any(mentions_model(x) for x in sl)
+    # definitions that can reach the loop on a continued run: reaching definitions of the prologue with the first-step guards (statement or
+    # conditional expression, any spelling) partially evaluated for "not the first step"
     pro_defs = {}
-    for a, sts in self_assigns(pro_mod).items():
-        pro_defs.setdefault(a, []).extend([("run_sim prologue", s, guard_of(s, rs)) for s in sts])
-    for m in sorted(pro_methods):
-        for a, sts in self_assigns(meths[m]).items():
-            pro_defs.setdefault(a, []).extend([(m, s, None) for s in sts])
+    fsx.reaching(prologue, pro_defs, "run_sim prologue", call_defs)
+    pro_defs = {a: [(m, s_, None) for m, s_ in lst] for a, lst in pro_defs.items() if lst}
     init_defs = self_assigns(ini)
     for m in closure(meths, self_method_calls(ini)):
         if m != "__init__":
@@ -185,7 +426,7 @@ def run(repo, chk):
     inv = []
     for a in sorted(carried):
         where = carried[a][0]
-        defs = [d for d in pro_defs.get(a, []) if d[2] != "first"]     # definitions that can reach the loop on a continued run
+        defs = pro_defs.get(a, [])     # definitions that can reach the loop on a continued run
         construct = "loop-carried simulator state self.%s is re-derived from the model when a continued run starts" % a
         if a in INVARIANT:
             chk.ok("R-C10-1", "self.%s: %s" % (a, INVARIANT[a]), loc(rs))
@@ -194,14 +435,15 @@ def run(repo, chk):
             bad = []
             for m, s, g in defs:
                 val = s.value if isinstance(s, (ast.Assign, ast.AnnAssign)) else getattr(s, "value", None)
+                if val is not None and m == "run_sim prologue":
+                    val = fsx.continued_value(val)     # `a if first_step else b` defines b on a continued run
                 fn_reads_model = m != "run_sim prologue" and mentions_model(meths[m])
                 if val is not None and (mentions_model(val) or fn_reads_model) and not (m == "run_sim prologue" and is_constant_value(val)):
                     continue
                 if val is not None and not is_constant_value(val) and m == "run_sim prologue":
                     # derived from other prologue values: accept when those come from the model
                     names = {x.id for x in ast.walk(val) if isinstance(x, ast.Name)}
-                    if names and all(any(isinstance(p, ast.Assign) and any(isinstance(t, ast.Name) and t.id == nm for t in p.targets) and mentions_model(p.value)
-                                         for p in walk(pro_mod)) for nm in names if nm not in ("int", "float", "len", "dict", "list")):
+                    if names and all(local_from_model(nm) for nm in names if nm not in ("int", "float", "len", "dict", "list", "bool", "self")):
                         continue
                 bad.append((m, s))
             inv.append({"attr": a, "written_in": where[0], "continued_run_definitions": ["%s: %s" % (m, norm(s)) for m, s, g in defs]})
@@ -236,29 +478,130 @@ def run(repo, chk):
                 for e in (t.elts if isinstance(t, (ast.Tuple, ast.List)) else [t]):
                     if isinstance(e, ast.Name):
                         loc_assigned.setdefault(e.id, []).append(n)
-    LOCAL_OK = {
-        "trial": "counter of re-solves within one time step; reset to 0 at the start of every step",
-        "resolve": "flag of the re-solve loop within one time step; False at every accepted step, i.e. at every possible pause point",
-        "first_step": "derived from sim_time == 0 in the prologue",
-    }
+    g = CFG(rs)
+    idom = g.dominators()
+    head = g.loop_heads[loop]
+    loop_ids = {id(x) for x in ast.walk(loop)}
+    in_loop = lambda i: id(g.node_ast(i)) in loop_ids
+    after_head = g.reachable(head)
+    fwd = g.view(drop_back=True)
+    import networkx as nx
+    # local aliases of simulator/model objects (wn = self._wn): resolved before a store target is compared
+    n_assign = {}
+    for n in walk(rs):
+        if isinstance(n, (ast.Assign, ast.AugAssign, ast.AnnAssign, ast.For)):
+            for t in _flat_targets(n):
+                if isinstance(t, ast.Name):
+                    n_assign.setdefault(t.id, []).append(n)
+    alias = {nm: dotted(sts[0].value) for nm, sts in n_assign.items()
+             if len(sts) == 1 and isinstance(sts[0], ast.Assign) and (dotted(sts[0].value) or "").startswith("self.")}
+
+    def canon(t):
+        d = dotted(t)
+        if d and "." in d and d.split(".")[0] in alias:      # a store THROUGH an alias; binding the alias name itself stores nothing
+            d = alias[d.split(".")[0]] + d[len(d.split(".")[0]):]
+        return d
+
+    def stores_to(text):
+        return g.nodes_where(lambda node, d: isinstance(node, (ast.Assign, ast.AugAssign, ast.AnnAssign)) and any(canon(t) == text for t in _flat_targets(node)))
+    # the time advance = pause point: the first store to the model clock on the accepted-step path (later stores of the same sequence, e.g. the
+    # removal of the overstep, are dominated by it), however it is spelled (+=, a = a + h, through an alias)
+    clock_stores = [i for i in stores_to("self._wn.sim_time") if in_loop(i)]
+    adv = [a_ for a_ in clock_stores if not any(b_ != a_ and g.dominates(b_, a_, idom) for b_ in clock_stores)]
+
+    def local_assigns(nm):
+        return [i for i in g.nodes_where(lambda node, d: isinstance(node, (ast.Assign, ast.AugAssign, ast.AnnAssign))
+                                         and any(isinstance(t, ast.Name) and t.id == nm for t in _flat_targets(node))) if in_loop(i)]
+
+    def reads_name(node, nm):
+        if isinstance(node, ast.AugAssign) and isinstance(node.target, ast.Name) and node.target.id == nm:
+            return True
+        return any(isinstance(x, ast.Name) and x.id == nm and isinstance(x.ctx, ast.Load) for x in ast.walk(node))
+
+    def same_const(x, y):
+        return type(x) is type(y) and x == y
+    pro_local_defs = {nm: [n for n in walk(pro_mod) if isinstance(n, ast.Assign) and any(isinstance(t, ast.Name) and t.id == nm for t in _flat_targets(n))]
+                      for nm in loc_assigned}
+    NOCONST = object()
+
+    def init_const(nm):
+        vals = [const(p.value, NOCONST) for p in pro_local_defs.get(nm, [])]
+        if vals and all(v is not NOCONST and same_const(v, vals[0]) for v in vals) and all(len(p.targets) == 1 and isinstance(p.targets[0], ast.Name) for p in pro_local_defs[nm]):
+            return vals[0]
+        return NOCONST
+    # (A) pause-invariant locals: whenever the clock is advanced (the only points where a run can end and be continued) the local holds the
+    # constant a new run initialises it with -- every other assignment in the loop is followed by a re-assignment of that constant before an advance
+    K = {}
     for nm in sorted(loc_assigned):
-        pdefs = [n for n in walk(pro_mod) if isinstance(n, ast.Assign) and any(isinstance(t, ast.Name) and t.id == nm for t in n.targets)]
+        c = init_const(nm)
+        if c is NOCONST or not adv:
+            continue
+        las = local_assigns(nm)
+        back = [i for i in las if isinstance(g.node_ast(i), ast.Assign) and len(g.node_ast(i).targets) == 1 and isinstance(g.node_ast(i).targets[0], ast.Name)
+                and same_const(const(g.node_ast(i).value, NOCONST), c)]
+        other = [i for i in las if i not in back]
+        if all(g.must_pass(o, set(adv), back)[0] for o in other):
+            K[nm] = c
+
+    def unobservable(nm):
+        """(B) the value the local has when the loop is entered is never used: on every path from the loop head a plain re-assignment comes
+        before any use.  Branches whose test is decided by the pause-invariant locals (A) -- which hold their initial constants at loop entry -- are
+        followed only in the decided direction, for their first evaluation."""
+        env = {k: v for k, v in K.items() if k != nm}
+        kills = [i for i in local_assigns(nm) if isinstance(g.node_ast(i), ast.Assign) and not reads_name(g.node_ast(i).value, nm)
+                 and all(isinstance(t, ast.Name) for t in g.node_ast(i).targets)]
+        reads = {i for i in after_head if g.node_ast(i) is not None and i not in kills and reads_name(g.node_ast(i), nm)}
+        decided = []
+        for i, d in g.g.nodes(data=True):
+            if d["kind"] != "test" or not in_loop(i):
+                continue
+            used = {x.id for x in ast.walk(d["node"]) if isinstance(x, ast.Name)}
+            if not used or not used <= set(env):
+                continue
+            try:
+                ev = Evaluator(env=dict(env))
+                out = bool(ev.truth(ev.ev(d["node"])))
+            except (Unknown, Raised, TypeError):
+                continue
+            # the decision is only valid while the locals still hold their entry values: no assignment of them between the loop head and the test
+            dirty = False
+            for v in used:
+                for x in local_assigns(v):
+                    if x in fwd and head in fwd and i in fwd and nx.has_path(fwd, head, x) and nx.has_path(fwd, x, i):
+                        dirty = True
+            if not dirty:
+                decided.append((i, out))
+        w = g.can_reach_avoiding(head, reads, set(kills) | {i for i, o in decided})
+        if w is not None:
+            return False, g.path_text(w)
+        for i, out in decided:
+            for sc in g.succ_on(i, out):
+                w = g.can_reach_avoiding(sc, reads, set(kills))
+                if w is not None:
+                    return False, g.path_text([i] + w)
+        return True, None
+    for nm in sorted(loc_assigned):
+        pdefs = pro_local_defs[nm]
         if not pdefs:
             chk.ok("R-C10-1b", "run_sim local %s is loop-local scratch (no definition before the loop)" % nm, loc(rs, loc_assigned[nm][0]))
             continue
-        derived = any(mentions_model(p.value) or guard_of(p, rs) is not None for p in pdefs)
-        chk.expect(derived or nm in LOCAL_OK, "R-C10-1b", "run_sim local %s carried across iterations is re-derived from the model on a continued run" % nm, loc(rs, pdefs[0]),
-                   "local %s is initialised to %s before the loop and updated inside it" % (nm, norm(pdefs[0].value)),
-                   found=[norm(p) for p in pdefs]) if not (nm in LOCAL_OK and not derived) else chk.ok(
-            "R-C10-1b", "run_sim local %s: %s" % (nm, LOCAL_OK[nm]), loc(rs, pdefs[0]))
+        construct = "run_sim local %s carried across iterations is re-derived from the model on a continued run" % nm
+        derived = any(mentions_model(p.value) or guard_of(p, rs) is not None for p in pdefs) or local_from_model(nm)
+        if derived:
+            chk.ok("R-C10-1b", construct, loc(rs, pdefs[0]), "; ".join(norm(p) for p in pdefs))
+        elif nm in K:
+            chk.ok("R-C10-1b", "run_sim local %s: holds its initial constant %r at every time advance, i.e. at every possible pause point" % (nm, K[nm]), loc(rs, pdefs[0]))
+        else:
+            okb, wit = unobservable(nm)
+            if okb:
+                chk.ok("R-C10-1b", "run_sim local %s: the value it has when the loop is entered is re-assigned before any use" % nm, loc(rs, pdefs[0]))
+            else:
+                chk.bad("R-C10-1b", construct, loc(rs, pdefs[0]),
+                        "local %s is initialised to %s before the loop and updated inside it; a continued run uses that initial value (%s) while the "
+                        "uninterrupted run carries the updated one" % (nm, norm(pdefs[0].value), wit), found=[norm(p) for p in pdefs])
     chk.floor("R-C10-1b", 3)
-    # `resolve` / `trial` exemption re-checked: the accepted-step path sets resolve = False before the time advance
-    g = CFG(rs)
-    adv = g.nodes_where(lambda node, d: isinstance(node, ast.AugAssign) and unparse(node.target) == "self._wn.sim_time" and isinstance(node.op, ast.Add))
-    rf = g.nodes_where(lambda node, d: isinstance(node, ast.Assign) and unparse(node.targets[0]) == "resolve" and const(node.value) is False and node.lineno > loop.lineno)
-    idom = g.dominators()
-    chk.expect(bool(adv) and bool(rf) and all(any(g.dominates(r, a, idom) for r in rf) for a in adv), "R-C10-1b",
-               "every time advance is dominated by `resolve = False` (no pause point inside a re-solve)", loc(rs), found=(len(adv), len(rf)))
+    chk.expect(bool(adv), "R-C10-1b", "the time advance of the loop (the pause point) is identified", loc(rs), found=len(clock_stores))
+    chk.extra["pause_invariant_locals"] = {k: repr(v) for k, v in K.items()}
 
     # ------------------------------------------------------------ R-C10-4 initialisation agrees with the loop's own update
     # the connectivity graph is loop-carried state: what a new simulator derives from the model at the start of a continued run must be what the
@@ -267,8 +610,10 @@ def run(repo, chk):
     ig_, ug_ = meths.get("_initialize_internal_graph"), meths.get("_update_internal_graph")
     if ig_ is None or ug_ is None:
         raise AnchorError("_initialize_internal_graph / _update_internal_graph vanished")
-    is_vals = lambda n: isinstance(n, ast.Call) and isinstance(n.func, ast.Attribute) and n.func.attr == "append" and unparse(n.func.value) == "vals"
-    is_data = lambda n: isinstance(n, ast.Assign) and (unparse(n.targets[0]).startswith("data[") or "_internal_graph" in unparse(n.targets[0]))
+    # an encoding store writes the connectivity constant 0 / 1 into a container (append or item assignment), whatever the container is called
+    bit = lambda v: type(const(v)) is int and const(v) in (0, 1)
+    is_vals = lambda n: isinstance(n, ast.Call) and isinstance(n.func, ast.Attribute) and n.func.attr == "append" and len(n.args) == 1 and bit(n.args[0])
+    is_data = lambda n: isinstance(n, ast.Assign) and isinstance(n.targets[0], ast.Subscript) and bit(n.value)
     gi_ = status_guards(ig_, lambda n: is_vals(n) or is_data(n))
     gu_ = status_guards(ug_, is_data)
     if not gi_ or not gu_:
@@ -331,40 +676,115 @@ def run(repo, chk):
     chk.floor("R-C10-2", len(rt_classes) + 2)
 
     # ------------------------------------------------------------ R-C10-3 continuation point
-    fs = [n for n in walk(pro_mod) if isinstance(n, ast.If) and any(isinstance(s, ast.Assign) and unparse(s.targets[0]) == "first_step" for s in n.body)]
-    ok_fs = False
-    if fs:
-        t = unparse(fs[0].test)
-        tv = [const(s.value) for s in fs[0].body if isinstance(s, ast.Assign) and unparse(s.targets[0]) == "first_step"]
-        ev = [const(s.value) for s in fs[0].orelse if isinstance(s, ast.Assign) and unparse(s.targets[0]) == "first_step"]
-        ok_fs = t in ("self._wn.sim_time == 0", "self._wn.sim_time == 0.0") and tv == [True] and ev == [False]
-    else:
-        a = [n for n in walk(pro_mod) if isinstance(n, ast.Assign) and unparse(n.targets[0]) == "first_step"]
-        ok_fs = bool(a) and unparse(a[0].value) in ("self._wn.sim_time == 0", "self._wn.sim_time == 0.0")
-    chk.expect(ok_fs, "R-C10-3", "first_step is exactly `sim_time == 0`", loc(rs), found=unparse(fs[0].test) if fs else None)
-    # normal loop exit: break under `sim_time > duration`, dominated by the advance
-    exits = g.nodes_where(lambda node, d: isinstance(node, ast.Break))
-    normal = []
-    for b in exits:
-        p = parent(g.node_ast(b))
-        if isinstance(p, ast.If) and "options.time.duration" in unparse(p.test):
-            normal.append((b, p))
-    chk.expect(len(normal) == 1 and unparse(normal[0][1].test).replace(" ", "") == "self._wn.sim_time>self._wn.options.time.duration", "R-C10-3",
-               "the loop ends normally only when sim_time > duration", loc(rs), found=[unparse(p.test) for b, p in normal])
-    if normal:
-        chk.expect(all(g.dominates(a, normal[0][0], idom) for a in adv[:1]) and bool(adv), "R-C10-3",
+    # the flag's definition is evaluated, not matched: the slice of the prologue that defines it is run for several model clocks (and for every
+    # value of whatever else it reads); the flag must be true exactly when sim_time == 0, independent of everything else
+    fsl, _w = backward_slice(prologue, {flag})
+    if not fsl:
+        raise ExtractError("run_sim: no definition of %s before the loop" % flag)
+    rows, free_in = flag_rows(fsl, flag)
+    wrong = [(t, fr, v) for t, fr, v in rows if v != (t == 0)]
+    chk.expect(bool(rows) and not wrong, "R-C10-3", "%s is exactly `sim_time == 0`" % flag, loc(rs, fsl[0]),
+               "the flag that guards the first-step-only initialisation must be true on a fresh model (sim_time == 0) and false on every continued run, "
+               "whatever else the model holds%s" % ("; its definition also reads %s" % free_in if free_in else ""),
+               expected="truth(%s) == (sim_time == 0)" % flag,
+               found=["sim_time=%r %s-> %s" % (t, "".join("%s=%r " % kv for kv in sorted(fr.items())), v) for t, fr, v in wrong[:4]] or None)
+
+    # loop exits, classified by evaluation: a `break` is a TIME exit if the conditions on its path can be evaluated from the model clock, the
+    # duration and the hydraulic timestep alone (after running the clock arithmetic of the iteration that precedes it); the other breaks depend on
+    # the solver / the controls (error exits) and are not pause points of a successful run
+    def exit_paths():
+        out = []
+        for b_ in g.nodes_where(lambda node, d: isinstance(node, ast.Break)):
+            brk = g.node_ast(b_)
+            chain, q = [], brk
+            while q is not None and q is not loop:
+                p_ = parent(q)
+                if isinstance(p_, (ast.For, ast.While)) and p_ is not loop:
+                    chain = None
+                    break
+                if isinstance(p_, ast.If):
+                    chain.append((p_, q in p_.body, q))
+                q = p_
+            if chain is None or q is not loop:
+                continue            # break of an inner loop / not of the time loop
+            out.append((b_, list(reversed(chain))))
+        return out
+
+    def run_exit(chain, t, h, D):
+        """-> (taken?, sim_time when the last test is evaluated) or None when the path conditions are not a function of the clock."""
+        top = chain[0][0] if chain else None
+        q = top
+        while parent(q) is not loop and parent(q) is not None:
+            q = parent(q)
+        if q not in loop.body:
+            return None
+        segs, tests = [loop.body[:loop.body.index(q)]], []
+        if q is not top:
+            return None                                   # the outermost guard is wrapped in something that is not an `if` (with/try)
+        for k, (ifn, in_body, child) in enumerate(chain):
+            tests.append((ifn.test, in_body))
+            branch = ifn.body if in_body else ifn.orelse
+            if k + 1 < len(chain):
+                nxt = chain[k + 1][0]
+                if nxt not in branch:
+                    return None
+                segs.append(branch[:branch.index(nxt)])
+        wanted, sls = {"self._wn.sim_time"}, [None] * len(segs)
+        for k in reversed(range(len(segs))):
+            wanted |= _read_texts(tests[k][0])
+            sls[k], wanted = backward_slice(segs[k], wanted)
+        slp, _ = backward_slice(prologue, wanted)
+        ev, wn, reads = _machine(t, duration=D, hyd=h)
+        try:
+            ev.run(slp)
+            taken = True
+            for k in range(len(segs)):
+                ev.run(sls[k])
+                if bool(ev.truth(ev.ev(tests[k][0]))) != tests[k][1]:
+                    taken = False
+                    break
+        except (Unknown, Raised, TypeError, ZeroDivisionError):
+            return None
+        if reads:
+            return None
+        return taken, wn.attrs["sim_time"]
+    PROBES = [(0, 3600, 36000), (32400, 3600, 36000), (36000, 3600, 36000), (1800, 3600, 36000), (5000.0, 3600, 36000), (35000, 3600, 36000),
+              (0, 3600, 0), (7200, 1800, 9000), (7200, 1800, 8999), (0, 900.0, 86400)]
+    time_exits = []
+    for b_, chain in exit_paths():
+        try:
+            res = [run_exit(chain, t, h, D) for t, h, D in PROBES] if chain else [None]
+        except ExtractError:
+            res = [None]
+        if all(r is not None for r in res):
+            time_exits.append((b_, chain, res))
+    chk.extra["time_exits"] = [norm(ch[-1][0].test) for b_, ch, r in time_exits]
+    bad_exit = [(PROBES[i], r) for b_, ch, res in time_exits for i, r in enumerate(res) if r[0] != (r[1] > PROBES[i][2])]
+    chk.expect(len(time_exits) == 1 and not bad_exit, "R-C10-3", "the loop ends normally only when sim_time > duration",
+               loc(rs, time_exits[0][1][-1][0]) if time_exits else loc(rs),
+               "a run must stop after the last step at or before the duration and not earlier: a part that stops early (or late) makes the continued run "
+               "start at a different time than the uninterrupted one passes through", expected="exactly one clock-dependent exit, taken iff sim_time > duration",
+               found=[norm(ch[-1][0].test) for b_, ch, r in time_exits] + ["(sim_time,h,duration)=%r -> exit %r at sim_time %r" % (pr, r[0], r[1]) for pr, r in bad_exit[:3]])
+    if time_exits:
+        nb, nchain, nres = time_exits[0]
+        chk.expect(bool(adv) and any(g.dominates(a_, nb, idom) for a_ in adv), "R-C10-3",
                    "the normal exit is reached only after sim_time was advanced by the hydraulic timestep (a continued run starts at the next grid time)", loc(rs))
-        # the advance returns to the grid: sim_time -= sim_time % hydraulic_timestep
-        txt = unparse(ast.Module(body=loop.body, type_ignores=[]))
-        chk.expect("self._wn.sim_time += self._hydraulic_timestep" in txt and "% self._hydraulic_timestep" in txt and "self._wn.sim_time -= overstep" in txt, "R-C10-3",
-                   "the time advance adds one hydraulic timestep and removes the overstep (returns to the grid after a partial step)", loc(rs))
+        # the advance returns to the grid: the clock arithmetic of one iteration is evaluated on whole and partial steps
+        grid = lambda t, h: (t + h) - ((t + h) % h)
+        off = [(PROBES[i], r[1]) for i, r in enumerate(nres) if not isinstance(r[1], (int, float)) or abs(r[1] - grid(PROBES[i][0], PROBES[i][1])) > 1e-9]
+        chk.expect(not off, "R-C10-3", "the time advance adds one hydraulic timestep and removes the overstep (returns to the grid after a partial step)",
+                   loc(rs, g.node_ast(adv[0])) if adv else loc(rs), expected="sim_time' = (sim_time + h) - (sim_time + h) % h",
+                   found=["(sim_time,h,duration)=%r -> %r" % o for o in off[:4]] or None)
         # and nothing between the advance and the exit test stores results or changes state again
-        upv = g.calling("update_network_previous_values")
-        chk.expect(bool(upv) and all(any(g.dominates(u, a, idom) for u in upv if g.g.nodes[u]["line"] > loop.lineno) for a in adv), "R-C10-3",
+        upv = [u for u in g.calling("update_network_previous_values") if in_loop(u)]
+        chk.expect(bool(upv) and bool(adv) and all(any(g.dominates(u, a_, idom) for u in upv) for a_ in adv), "R-C10-3",
                    "the accepted state is recorded (update_network_previous_values) before every time advance", loc(rs))
     chk.floor("R-C10-3", 4)
 
 
+_FS_OLD = "        if self._wn.sim_time == 0:\n            first_step = True\n        else:\n            first_step = False\n"
+_RI_OLD = ("        if first_step:\n            self._rule_iter = 1\n        else:\n"
+           "            self._rule_iter = int(self._wn._prev_sim_time // self._wn.options.time.rule_timestep) + 1\n")
 WITNESSES = [
     dict(name="restart-graph-from-isolation-flags", file=CORE, old="            if link.status == wntr.network.LinkStatus.Closed:\n                vals.append(0)",
          new="            if link.status == wntr.network.LinkStatus.Closed or link._is_isolated:\n                vals.append(0)", rule="R-C10-4"),
@@ -381,4 +801,58 @@ WITNESSES = [
     dict(name="exit-before-advance", file=CORE, old="            if self._wn.sim_time > self._wn.options.time.duration:\n                break\n",
          new="            if self._wn.sim_time >= self._wn.options.time.duration:\n                break\n", rule="R-C10-3"),
     dict(name="first-step-from-prev-time", file=CORE, old="        if self._wn.sim_time == 0:\n            first_step = True", new="        if self._wn._prev_sim_time is None:\n            first_step = True", rule="R-C10-3"),
+    dict(name="first-step-also-from-prev-time", file=CORE, old=_FS_OLD, new="        first_step = bool(self._wn.sim_time == 0 or self._wn._prev_sim_time is None)\n", rule="R-C10-3"),
+    dict(name="first-step-inverted", file=CORE, old=_FS_OLD, new="        first_step = bool(self._wn.sim_time)\n", rule="R-C10-3"),
+    dict(name="advance-keeps-overstep", file=CORE, old="            self._wn.sim_time -= overstep\n", new="", rule="R-C10-3"),
+    dict(name="resolve-flag-not-cleared-at-advance", file=CORE, old="            resolve = False\n            if not isinstance(self._report_timestep, str)",
+         new="            if not isinstance(self._report_timestep, str)", rule="R-C10-1b"),
+    dict(name="trial-counter-not-reset-per-step", file=CORE, old="                trial = 0\n                self._compute_next_timestep", new="                self._compute_next_timestep", rule="R-C10-1b"),
+    dict(name="rule-clock-reset-by-conditional-expression", file=CORE, old=_RI_OLD, new="        self._rule_iter = 1 if first_step else 1\n", rule="R-C10-1"),
+    dict(name="rule-clock-override-only-on-first-step", file=CORE, old=_RI_OLD,
+         new="        self._rule_iter = 1\n        if first_step:\n            self._rule_iter = int(self._wn._prev_sim_time // self._wn.options.time.rule_timestep) + 1\n", rule="R-C10-1"),
+    # ---- behaviour-preserving spellings that must stay quiet
+    dict(name="quiet-first-step-bool-expression", file=CORE, old=_FS_OLD, new="        first_step = bool(self._wn.sim_time == 0)\n", silent=True),
+    dict(name="quiet-first-step-hoisted-clock-and-negation", file=CORE, old=_FS_OLD, new="        now = self._wn.sim_time\n        continued = now != 0\n        first_step = not continued\n", silent=True),
+    dict(name="quiet-first-step-conditional-expression", file=CORE, old=_FS_OLD, new="        first_step = False if self._wn.sim_time else True\n", silent=True),
+    dict(name="quiet-merged-first-step-blocks", file=CORE,
+         old="        else:\n            self._rule_iter = int(self._wn._prev_sim_time // self._wn.options.time.rule_timestep) + 1\n\n        if first_step:\n"
+             "            wntr.sim.hydraulics.update_network_previous_values(self._wn)\n            self._wn._prev_sim_time = -1\n",
+         new="            wntr.sim.hydraulics.update_network_previous_values(self._wn)\n            self._wn._prev_sim_time = -1\n"
+             "        else:\n            self._rule_iter = int(self._wn._prev_sim_time // self._wn.options.time.rule_timestep) + 1\n", silent=True),
+    dict(name="quiet-rule-clock-conditional-expression", file=CORE, old=_RI_OLD,
+         new="        self._rule_iter = 1 if first_step else int(self._wn._prev_sim_time // self._wn.options.time.rule_timestep) + 1\n", silent=True),
+    dict(name="quiet-rule-clock-default-then-override", file=CORE, old=_RI_OLD,
+         new="        self._rule_iter = 1\n        if not first_step:\n            self._rule_iter = int(self._wn._prev_sim_time // self._wn.options.time.rule_timestep) + 1\n", silent=True),
+    dict(name="quiet-rule-clock-inverted-branches", file=CORE, old=_RI_OLD,
+         new="        if first_step == False:\n            self._rule_iter = int(self._wn._prev_sim_time // self._wn.options.time.rule_timestep) + 1\n        else:\n            self._rule_iter = 1\n", silent=True),
+    dict(name="quiet-first-step-guard-as-comparison", file=CORE, old="        if first_step:\n            wntr.sim.hydraulics.update_network_previous_values(self._wn)\n",
+         new="        if first_step != False:\n            wntr.sim.hydraulics.update_network_previous_values(self._wn)\n", silent=True),
+    dict(name="quiet-first-step-guard-on-the-clock", file=CORE, old="        if first_step:\n            wntr.sim.hydraulics.update_network_previous_values(self._wn)\n",
+         new="        if self._wn.sim_time == 0:\n            wntr.sim.hydraulics.update_network_previous_values(self._wn)\n", silent=True),
+    dict(name="quiet-exit-test-negated-and-hoisted", file=CORE, old="            if self._wn.sim_time > self._wn.options.time.duration:\n                break\n",
+         new="            end_of_run = self._wn.options.time.duration\n            if not (self._wn.sim_time <= end_of_run):\n                break\n", silent=True),
+    dict(name="quiet-advance-spelled-out", file=CORE,
+         old="            self._wn.sim_time += self._hydraulic_timestep\n            overstep = float(self._wn.sim_time) % self._hydraulic_timestep\n            self._wn.sim_time -= overstep\n",
+         new="            advanced = self._wn.sim_time + self._hydraulic_timestep\n            self._wn.sim_time = advanced - float(advanced) % self._hydraulic_timestep\n", silent=True),
+    dict(name="quiet-flag-and-resolve-renamed", file=CORE, old=_FS_OLD,
+         new="        if self._wn.sim_time == 0:\n            fresh_start = True\n        else:\n            fresh_start = False\n",
+         also=[("        if first_step:\n            self._rule_iter = 1", "        if fresh_start:\n            self._rule_iter = 1"),
+               ("        if first_step:\n            wntr.sim.hydraulics.update_network_previous_values", "        if fresh_start:\n            wntr.sim.hydraulics.update_network_previous_values"),
+               ("                if not first_step:\n                    \"\"\"", "                if not fresh_start:\n                    \"\"\""),
+               ("and_rules(first_step)", "and_rules(fresh_start)"),
+               ("            if not first_step and not resolve:", "            if not fresh_start and not solve_again:"),
+               ("            first_step = False\n            self._wn.sim_time +=", "            fresh_start = False\n            self._wn.sim_time +="),
+               ("        resolve = False\n        # this is used", "        solve_again = False\n        # this is used"),
+               ("            if not resolve:\n", "            if not solve_again:\n"),
+               ("                resolve = True\n", "                solve_again = True\n"),
+               ("            resolve = False\n            if not isinstance", "            solve_again = False\n            if not isinstance"),
+               ("        trial = -1\n", "        n_solves = -1\n"),
+               ("                trial = 0\n", "                n_solves = 0\n"),
+               ("                trial += 1\n                if trial > max_trials:", "                n_solves += 1\n                if n_solves > max_trials:"),
+               ("format(self._get_time(), trial, str(iter_count)", "format(self._get_time(), n_solves, str(iter_count)")],
+         silent=True),
+    dict(name="quiet-graph-encoding-containers-renamed", file=CORE, old="            if link.status == wntr.network.LinkStatus.Closed:\n                vals.append(0)\n                vals.append(0)\n            else:\n                vals.append(1)\n                vals.append(1)\n",
+         new="            if link.status == wntr.network.LinkStatus.Closed:\n                entries.append(0)\n                entries.append(0)\n            else:\n                entries.append(1)\n                entries.append(1)\n",
+         also=[("        vals = []\n        for link_name, link in itertools.chain", "        entries = []\n        for link_name, link in itertools.chain"),
+               ("        vals = np.array(vals, dtype=self._int_dtype)", "        vals = np.array(entries, dtype=self._int_dtype)")], silent=True),
 ]
